@@ -26,7 +26,8 @@ RULE = ('(paths) every sign pattern x magnitude template of up to k fills (k<=4 
         'Non-trivial = both sides traded, non-zero open-side commission and net != 0 at a check; distinct = '
         'distinct (sign pattern, trajectory, values).'
         " Round-5 reach: (position driver) fills stamped before the position's time are attempted in between and must be refused, after which the position must reconcile to the ledger with or without the refused fill (never a mixture); the fill that opens a position may be 0.25-0.75 units."
-        " Round-10 reach: part `broker`: orders filled and positions re-marked by SimulatedBroker.update itself (open and closed hours, orders waiting over closed hours, reports read between submission and update, 1-2 portfolios, bid/ask spreads, percentage fees); the identities are checked on every row of get_portfolio_as_dict after every update (non-trivial = a re-marked position traded on both sides).")
+        " Round-10 reach: part `broker`: orders filled and positions re-marked by SimulatedBroker.update itself (open and closed hours, orders waiting over closed hours, reports read between submission and update, 1-2 portfolios, bid/ask spreads, percentage fees); the identities are checked on every row of get_portfolio_as_dict after every update (non-trivial = a re-marked position traded on both sides)."
+        " Round-11 reach: micro-priced assets (8e-6, 0.0004) in the broker part.")
 ASSUMPTIONS = [
     'quantities are whole numbers (as Transaction documents) or, in a quarter of the random ladders, non-integers of at '
     'least one unit; sub-unit fills other than the one opening a position are outside the domain (the code documents '
@@ -510,7 +511,8 @@ def broker_cases(draw):
                  for _ in range(draw(st.sampled_from([0, 1, 1, 2, 3])))]
         steps.append({'adv': draw(st.sampled_from(['min', 'min', 'closed', 'closed', 'nextday'])), 'orders': orders,
                       'moves': moves, 'read_first': draw(st.booleans())})
-    return {'na': na, 'np': np_, 'steps': steps, 'start_prices': [draw(gen.prices) for _ in range(na)],
+    return {'na': na, 'np': np_, 'steps': steps,
+            'start_prices': [draw(st.one_of(gen.prices, gen.prices, st.sampled_from([8e-6, 0.0004]))) for _ in range(na)],      # incl. micro-priced assets
             'spread': draw(st.sampled_from([0.0, 0.01, 0.25])),
             'fee': draw(st.sampled_from([None, None, [0.001, 0.005], [0.01, 0.0]]))}
 
